@@ -1,4 +1,5 @@
 import Ptn.C02.Model
+import Ptn.C02.TTN
 /-! Line-protocol handler for the C02 model (core Lean only).
 
   nodeseq <op> <op> …      Node machine, starting from an unlinked node.  Answer: one field per op
@@ -7,6 +8,16 @@ import Ptn.C02.Model
     ops:  link:<shape>   reset   rt:<shape>:<perm|none>   o2p:<pid>:<k|none>   o2c:<cid>:<k>
           o2cs:<cid>=<k>,…   p2o   c2o:<cid>   cs2o:<cid>,…   xch:<a0>:<a1>:<b0>:<b1>   swap:<c1>:<c2>
     lists are comma separated, the empty list is `-`.
+
+  hist <op> <op> …         TTN structural model, starting from the empty network.  Answer: one field per op
+                           separated by `|`: the state after the op, or `err` (state unchanged), or for
+                           `lbc` the two leg specifications `spec&spec`.
+    state: `root=<id|->;T=<sorted tensor keys>;<id>:<parent|->:<children>:<open labels>:<shape>;…`
+           (nodes sorted by identifier)
+    ops:  root:<id>:<axes>   child:<id>:<axes>:<child_leg>:<parent_id>:<parent_leg>   acc:<id>
+          contract:<id1>:<id2>:<new>   split:<id>:<outspec>:<inspec>:<out_id>:<in_id>:<bond_dim>
+          ident:<child>:<parent>:<new>   rename:<new>:<old>   rtp:<id>:<perm|none>   lbc:<id1>:<id2>
+    axes = `<label>.<dim>,…`; spec = `<parent|->/<children>/<open legs>/<r|n>`
 -/
 namespace Ptn.C02
 
@@ -71,11 +82,114 @@ def runNodeSeq (ops : List NodeOp) : String :=
     | none => (acc.1, "err" :: acc.2)) (NodeS.empty, [])
   ";".intercalate r.2.reverse
 
+/-! ### TTN histories -/
+
+def parseAxes (s : String) : Option Tensor :=
+  if s = "-" then some [] else
+    (s.splitOn ",").mapM fun t =>
+      match t.splitOn "." with
+      | [a, b] => match a.toNat?, b.toNat? with
+        | some x, some y => some ⟨x, y⟩
+        | _, _ => none
+      | _ => none
+
+def parseOptId (s : String) : Option (Option Id) :=
+  if s = "-" then some none else s.toNat?.map some
+
+def parseSpec (s : String) : Option TTN.LegSpec :=
+  match s.splitOn "/" with
+  | [p, ch, op, r] =>
+    match parseOptId p, parseList ch, parseList op with
+    | some p', some ch', some op' =>
+      if r = "r" then some ⟨p', ch', op', true⟩
+      else if r = "n" then some ⟨p', ch', op', false⟩ else none
+    | _, _, _ => none
+  | _ => none
+
+def showOptId : Option Id → String
+  | some p => toString p
+  | none => "-"
+
+def showSpec (l : TTN.LegSpec) : String :=
+  s!"{showOptId l.parentLeg}/{showList l.childLegs}/{showList l.openLegs}/{if l.isRoot then "r" else "n"}"
+
+inductive HOp where
+  | op (o : TOp)
+  | lbc (a b : Id)
+
+def parseHOp (tok : String) : Option HOp :=
+  match tok.splitOn ":" with
+  | ["root", id, ax] =>
+    match id.toNat?, parseAxes ax with
+    | some i, some t => some (.op (.root i t))
+    | _, _ => none
+  | ["child", id, ax, cl, pid, pl] =>
+    match id.toNat?, parseAxes ax, cl.toNat?, pid.toNat?, pl.toNat? with
+    | some i, some t, some c, some p, some l => some (.op (.child i t c p l))
+    | _, _, _, _, _ => none
+  | ["acc", id] => id.toNat?.map (fun i => .op (.access i))
+  | ["contract", a, b, n] =>
+    match a.toNat?, b.toNat?, n.toNat? with
+    | some x, some y, some z => some (.op (.contract x y z))
+    | _, _, _ => none
+  | ["split", id, o, i, oid, iid, bd] =>
+    match id.toNat?, parseSpec o, parseSpec i, oid.toNat?, iid.toNat?, bd.toNat? with
+    | some x, some os, some is, some oi, some ii, some b => some (.op (.split x os is oi ii b))
+    | _, _, _, _, _, _ => none
+  | ["ident", c, p, n] =>
+    match c.toNat?, p.toNat?, n.toNat? with
+    | some x, some y, some z => some (.op (.ident x y z))
+    | _, _, _ => none
+  | ["rename", n, o] =>
+    match n.toNat?, o.toNat? with
+    | some x, some y => some (.op (.rename x y))
+    | _, _ => none
+  | ["rtp", id, p] =>
+    match id.toNat? with
+    | none => none
+    | some i =>
+      if p = "none" then some (.op (.rtp i none)) else (parseList p).map (fun q => .op (.rtp i (some q)))
+  | ["lbc", a, b] =>
+    match a.toNat?, b.toNat? with
+    | some x, some y => some (.lbc x y)
+    | _, _ => none
+  | _ => none
+
+def showTTNNode (t : TTN) (e : Id × NodeS) : String :=
+  let n := e.2
+  match t.logical e.1 with
+  | none => s!"{e.1}:ill-formed"
+  | some ax =>
+    let opens := (ax.drop n.nvirt).map (·.lab)
+    s!"{e.1}:{showOptId n.parent}:{showList n.children}:{showList opens}:{showList n.shape}"
+
+def showTTN (t : TTN) : String :=
+  let ns := t.nodes.mergeSort (fun a b => a.1 ≤ b.1)
+  let tk := (t.tensors.map (·.1)).mergeSort (fun a b => a ≤ b)
+  ";".intercalate (s!"root={showOptId t.root}" :: s!"T={showList tk}" :: ns.map (showTTNNode t))
+
+def runHist (ops : List HOp) : String :=
+  let r := ops.foldl (fun (acc : TTN × List String) op =>
+    match op with
+    | .lbc a b =>
+      match acc.1.legsBeforeCombination a b with
+      | some (s1, s2) => (acc.1, s!"{showSpec s1}&{showSpec s2}" :: acc.2)
+      | none => (acc.1, "err" :: acc.2)
+    | .op o =>
+      match acc.1.step o with
+      | some t' => (t', showTTN t' :: acc.2)
+      | none => (acc.1, "err" :: acc.2)) (TTN.empty, [])
+  "|".intercalate r.2.reverse
+
 def handle (args : List String) : String :=
   match args with
   | "nodeseq" :: toks =>
     match toks.mapM parseNodeOp with
     | some ops => if ops.isEmpty then "bad-op" else runNodeSeq ops
+    | none => "bad-op"
+  | "hist" :: toks =>
+    match toks.mapM parseHOp with
+    | some ops => if ops.isEmpty then "bad-op" else runHist ops
     | none => "bad-op"
   | _ => "bad-op"
 
